@@ -90,7 +90,7 @@ var c08Menu = []string{
 	"oj.ValidateReader", "oj.TokenizeLoad", "oj.MatchLoad", "sen.Tokenize", "sen.Match", "sen.MatchLoad", "pretty.WriteJSON", "oj.MustParse", "sen.MustParse", "alt.Alter", "alt.Dup", "jp.String", "alt.Recompose(embedded)", "oj.Unmarshal(embedded)",
 	// aborted calls: the error paths run concurrently with everybody else's calls
 	"oj.Marshal(unencodable)", "oj.Marshal(failing Marshaler)", "oj.JSON(panicking Simplifier)", "oj.Write(failing writer)", "sen.Write(failing writer)",
-	"sen.String(panicking Simplifier)", "oj.Load(reader error)", "oj.Parse(panicking callback)", "oj.Tokenize(panicking handler)", "sen.Parse(panicking callback)", "oj.Marshal(failing TextMarshaler)", "sen.ParseReader(reader error)", "oj.Parse(callback)", "sen.Parse(callback)", "oj.Parse(empty)",
+	"sen.String(panicking Simplifier)", "oj.Load(reader error)", "oj.Parse(panicking callback)", "oj.Tokenize(panicking handler)", "sen.Parse(panicking callback)", "oj.Marshal(failing TextMarshaler)", "sen.ParseReader(reader error)", "oj.Parse(callback)", "sen.Parse(callback)", "oj.Parse(empty)", "oj.JSON(big)", "sen.String(big)", "oj.Marshal(big)", "oj.Write(pooled, failing writer)", "sen.Write(pooled, failing writer)",
 }
 
 type failingMarshaler struct{ N int }
@@ -145,7 +145,7 @@ func drawOp08(t *rapid.T) *op08 {
 	switch {
 	case o.Fn == "oj.Marshal(unencodable)":
 		o.Val = make(chan int)
-	case strings.Contains(o.Fn, "failing") || strings.Contains(o.Fn, "panicking") || strings.Contains(o.Fn, "reader error") || strings.Contains(o.Fn, "callback") || strings.Contains(o.Fn, "empty"):
+	case strings.Contains(o.Fn, "failing") || strings.Contains(o.Fn, "panicking") || strings.Contains(o.Fn, "reader error") || strings.Contains(o.Fn, "callback") || strings.Contains(o.Fn, "empty") || strings.Contains(o.Fn, "big"):
 	case strings.HasPrefix(o.Fn, "oj.JSON"), strings.HasPrefix(o.Fn, "oj.Marshal"), strings.HasPrefix(o.Fn, "oj.Write"), strings.HasPrefix(o.Fn, "sen.String"), o.Fn == "sen.Bytes", o.Fn == "sen.Write", strings.HasPrefix(o.Fn, "pretty."), o.Fn == "alt.Decompose":
 		// (pretty.WriteJSON included)
 		o.Val, o.Desc = drawVal08(t)
@@ -423,6 +423,24 @@ func (o *op08) exec() (r ret08) {
 	case "oj.Parse(empty)":
 		v, err := oj.Parse([]byte([]string{"", "  \n", "[1,"}[o.B%3]))
 		r.canon = canonDocs(err != nil, []any{v})
+	case "oj.JSON(big)": // larger than the pooled writers' default WriteLimit
+		s := oj.JSON([]any{strings.Repeat("x", 1100+o.A*20), o.B})
+		r.canon, r.retained = s, []any{s}
+	case "sen.String(big)":
+		s := sen.String([]any{strings.Repeat("x", 1100+o.A*20), o.B})
+		r.canon, r.retained = s, []any{s}
+	case "oj.Marshal(big)":
+		text(oj.Marshal([]any{strings.Repeat("x", 1100+o.A*20), o.B}))
+	case "oj.Write(pooled, failing writer)":
+		sw := sim.NewSimWriter(0)
+		err := oj.Write(sw, []any{strings.Repeat("y", 1100+o.A*20), o.B, "tail"})
+		r.canon = fmt.Sprint(err != nil, len(sw.Calls))
+		r.retained = []any{sw.Buf}
+	case "sen.Write(pooled, failing writer)":
+		sw := sim.NewSimWriter(0)
+		err := sen.Write(sw, []any{strings.Repeat("y", 1100+o.A*20), o.B, "tail"})
+		r.canon = fmt.Sprint(err != nil, len(sw.Calls))
+		r.retained = []any{sw.Buf}
 	case "oj.Parse(panicking callback)":
 		n := 0
 		_, err := oj.Parse([]byte(`1 [2] {"a":3} 4`), func(v any) bool {
